@@ -50,6 +50,19 @@ CHECKS = {
         note="Same bounds as C01; post-solve objects: all results of <= 2 operations over <= 4 held points and <= 3 "
              "held expressions on a sub-family of the cases (every 3rd / 10th case in quick).",
     ),
+    "C03": dict(
+        category="exploration",
+        technique="bounded exhaustive exploration over a finite catalogue of real class members x declaration histories x grid "
+                  "assignments x subgradient selections, evaluated on the constraints the real classes generate",
+        text="For each of ~530 membership claims (each checked first against the class DEFINITION on a fine grid) every "
+             "declaration history up to the bound is driven through the public API, every assignment of grid points and every "
+             "listed (sub)gradient selection is written into the leaves, and every generated scalar constraint / class LMI is "
+             "evaluated: a constraint that a real member violates makes the relaxation exclude a real execution. The catalogue "
+             "contains, for each class, members that attain the generated inequalities with equality, so a tightened "
+             "coefficient is visible.",
+        note="Finite catalogue (R and R^2, 80 members), grids of 5 / 9 points, histories <= 2 (quick) / 3 (thorough). A weakened "
+             "condition is not this property's concern (C04). Level 'exploration': exhaustive over the stated finite space only.",
+    ),
     "C04": dict(
         category="model_checking",
         technique="explicit enumeration of all declaration histories <= 3 (4) per class and parameter tuple on the real classes; "
